@@ -10,7 +10,8 @@ from symx.run import H
 FUNCS = ["PyMatterSim.utils.pbc.remove_pbc"]
 BOUNDS = {
     "quick": "d in {2,3}; cells: symbolic orthogonal and symbolic LAMMPS lower-triangular (positive diagonal); n<=2 "
-             "displacement rows and the (d,) shape; all 2^d masks; all real values symbolic",
+             "displacement rows and the (d,) shape; all 2^d masks; all real values symbolic; sequences of three calls alternating "
+             "between an orthogonal cell and a sheared cell with the same edge lengths",
     "thorough": "as quick plus n=3 rows and integer-shift/idempotence claims on every mask",
 }
 STUBS = ["np.linalg.inv -> adjugate/determinant closed form (n<=3) on symbolic entries",
@@ -139,6 +140,40 @@ def h_shortest(ctx, d, mask):
     ctx.oblige("shortest_image", O.le(tot_a, tot_b))
 
 
+def h_history(ctx, d, order):
+    """the result depends on the arguments of the call only: calls with cells that share their edge lengths but differ in
+    tilt (orthogonal box, then the sheared box of the same size, ...) are interleaved and each answer is held against the
+    half-cell / lattice-translation conditions of *its own* cell; a repeated call returns the same vector"""
+    ctx.covers(*FUNCS)
+    pbc = ctx.repo("PyMatterSim.utils.pbc")
+    A = make_cell(ctx, d, "ortho")
+    B = make_cell(ctx, d, "tri")          # same symbols on the diagonal, free tilts
+    r = ctx.array("r", (1, d))
+    ppp = np.array([1] * d)
+    half = Fraction(1, 2) if ctx.mode == "sym" else 0.5
+    outs = {}
+    for step, which in enumerate(order):
+        Hm = A if which == "A" else B
+        out = pbc.remove_pbc(r, Hm, ppp)
+        ctx.output(f"out{step}", out)
+        f = ref_frac(r[0], Hm, d)
+        g = ref_frac(out[0], Hm, d)
+        for k in range(d):
+            ctx.oblige(f"step {step} (cell {which}) half[{k}]", O.And(O.le(g[k], half), O.ge(g[k], -half)))
+            if ctx.mode == "sym":
+                rk = ctx.find_round("rint", f[k])
+                ctx.oblige(f"step {step} (cell {which}) rounds_true_fraction[{k}]", rk is not None)
+                if rk is not None:
+                    ctx.oblige(f"step {step} (cell {which}) lattice[{k}]", O.eq(g[k], f[k] - rk))
+            else:
+                ctx.assume(abs(abs(f[k] - O.rint(f[k])) - 0.5) > 1e-6)
+                ctx.oblige(f"step {step} (cell {which}) lattice[{k}]", O.eq(g[k], f[k] - O.rint(f[k]), atol=1e-7))
+        if which in outs:
+            for a in range(d):
+                ctx.oblige(f"step {step}: same answer as the earlier call with cell {which} [{a}]", O.eq(out[0, a], outs[which][0, a], atol=1e-9))
+        outs[which] = out
+
+
 def _masks(d):
     return [m for m in product((0, 1), repeat=d)]
 
@@ -172,4 +207,5 @@ HARNESSES = [
     H("half_cell", h_half, cfg_half),
     H("shift_idempotent", h_shift, cfg_shift, rint_lemmas=("L1", "L2", "L3", "L4")),
     H("shortest_image", h_shortest, cfg_shortest),
+    H("call_history", h_history, lambda tier, seed: [dict(d=d, order=list(o)) for d in (2, 3) for o in ("ABA", "BAB")]),
 ]
